@@ -43,7 +43,24 @@ type Query struct {
 	ID    int                    `json:"id"`
 	Body  []*Node                `json:"body"`
 	Frags []*FragDef             `json:"frags"`
-	Vars  map[string]interface{} `json:"vars"`
+	Vars  map[string]interface{} `json:"vars"` // the variables sent with the request
+	// Defaults: default values declared in the operation ($v: Boolean = true); a variable that is
+	// not sent takes its default.
+	Defaults map[string]interface{} `json:"defaults,omitempty"`
+}
+
+// Eff is the value every variable has during execution: what was sent, else the declared default.
+func (q *Query) Eff() map[string]interface{} {
+	m := map[string]interface{}{}
+	for k, v := range q.Defaults {
+		m[k] = v
+	}
+	for k, v := range q.Vars {
+		if v != nil {
+			m[k] = v
+		}
+	}
+	return m
 }
 
 // ---- generation ----
@@ -67,6 +84,7 @@ type qgen struct {
 	aliasSig map[string]string // (response path of the parent, parent type, alias) -> field signature it stands for
 	path     string            // response path of the selection set being generated
 	force    string            // alias the next field must take (re-selection of an earlier field)
+	eff      map[string]interface{}
 }
 
 func GenQuery(r *vh.Rng, spec *SchemaSpec, o QOpts) *Query {
@@ -75,12 +93,25 @@ func GenQuery(r *vh.Rng, spec *SchemaSpec, o QOpts) *Query {
 	if r.Chance(50) {
 		g.q.Name = "Q" + fmt.Sprint(r.Intn(3))
 	}
-	// variables: v0..v3 booleans, n0..n1 ints
-	for i := 0; i < 4; i++ {
-		g.q.Vars[fmt.Sprintf("v%d", i)] = r.Bool()
+	// variables: v0..v3 booleans, n0..n1 ints; each is sent, or left to its declared default, or both
+	g.q.Defaults = map[string]interface{}{}
+	bind := func(name string, draw func() interface{}) {
+		switch r.Intn(3) {
+		case 0:
+			g.q.Vars[name] = draw()
+		case 1:
+			g.q.Defaults[name] = draw()
+		default:
+			g.q.Vars[name] = draw()
+			g.q.Defaults[name] = draw()
+		}
 	}
-	g.q.Vars["n0"] = float64(r.Intn(3))
-	g.q.Vars["n1"] = float64(r.Intn(3))
+	for i := 0; i < 4; i++ {
+		bind(fmt.Sprintf("v%d", i), func() interface{} { return r.Bool() })
+	}
+	bind("n0", func() interface{} { return float64(r.Intn(3)) })
+	bind("n1", func() interface{} { return float64(r.Intn(3)) })
+	g.eff = g.q.Eff()
 	g.q.ID = g.id()
 	g.q.Body = g.set("Query", o.Depth)
 	if len(g.q.Body) == 0 {
@@ -139,7 +170,7 @@ func (g *qgen) field(t *TypeSpec, f *FieldSpec, depth int) *Node {
 		a := int64(g.r.Intn(3))
 		if g.r.Chance(30) {
 			n.ArgVar = []string{"n0", "n1"}[g.r.Intn(2)]
-			a = int64(g.q.Vars[n.ArgVar].(float64))
+			a = int64(g.eff[n.ArgVar].(float64))
 		}
 		n.Arg = &a
 		n.Alias = fmt.Sprintf("%s_%d", f.Name, a)
@@ -424,6 +455,14 @@ func (q *Query) Text() string {
 				} else {
 					b.WriteString("$" + v + ": Boolean")
 				}
+				if d, ok := q.Defaults[v]; ok {
+					switch x := d.(type) {
+					case bool:
+						fmt.Fprintf(&b, " = %v", x)
+					case float64:
+						fmt.Fprintf(&b, " = %d", int64(x))
+					}
+				}
 			}
 			b.WriteString(")")
 		}
@@ -470,7 +509,7 @@ func (q *Query) condValue(d Dir) (bool, bool) {
 	case d.Bad != "":
 		return false, false
 	case d.Var != "":
-		v, ok := q.Vars[d.Var].(bool)
+		v, ok := q.Eff()[d.Var].(bool)
 		return v, ok
 	case d.Lit != nil:
 		return *d.Lit, true
@@ -532,7 +571,7 @@ func (q *Query) pruneNodes(ns []*Node) []*Node {
 
 // Prune deletes every node its directives exclude and drops the directives from the rest.
 func (q *Query) Prune() *Query {
-	p := &Query{Name: q.Name, ID: q.ID, Vars: q.Vars, Body: q.pruneNodes(q.Body)}
+	p := &Query{Name: q.Name, ID: q.ID, Vars: q.Vars, Defaults: q.Defaults, Body: q.pruneNodes(q.Body)}
 	for _, f := range q.Frags {
 		p.Frags = append(p.Frags, &FragDef{Name: f.Name, On: f.On, ID: f.ID, Body: q.pruneNodes(f.Body)})
 	}
